@@ -149,7 +149,8 @@ func c36Key(scalar byte) worldgen.Key {
 }
 
 var (
-	c36BlobKeys   = []worldgen.Key{c36Key(11), c36Key(12), c36Key(13)}
+	c36BlobKeys   = []worldgen.Key{c36Key(11), c36Key(12), c36Key(13), c36Key(18)}
+	c36ReqKey     = c36Key(19) // sends EIP-7002 / EIP-7251 requests
 	c36VictimKey  = c36Key(14) // delegated to the drainer
 	c36AttackKey  = c36Key(15)
 	c36GapKey     = c36Key(16)
@@ -302,9 +303,11 @@ func c36DiffHeaders(a, b *types.Header) string {
 
 func TestVerifC36Build(t *testing.T) {
 	run := &c36Run{t: t, st: vs.New("C36", t)}
+	// Newest rule set first: rapid's early, small draws favour low indices and the later
+	// forks have the most builder logic (blob cells, access lists, two-dimensional gas).
 	var variants []worldgen.Variant
-	for _, f := range c36Forks {
-		variants = append(variants, f.variant)
+	for i := len(c36Forks) - 1; i >= 0; i-- {
+		variants = append(variants, c36Forks[i].variant)
 	}
 	vs.Check(t, 1, func(rt *rapid.T) {
 		if run.incon != "" {
@@ -341,7 +344,7 @@ func (r *c36Run) one(rt *rapid.T, variants []worldgen.Variant) {
 		alloc[a] = acc
 	}
 	eth1 := new(big.Int).Exp(big.NewInt(10), big.NewInt(18), nil)
-	for _, k := range append(append([]worldgen.Key{}, c36BlobKeys...), c36AttackKey, c36GapKey, c36CheapKey) {
+	for _, k := range append(append([]worldgen.Key{}, c36BlobKeys...), c36AttackKey, c36GapKey, c36CheapKey, c36ReqKey) {
 		alloc[k.Addr] = types.Account{Balance: new(big.Int).Mul(big.NewInt(100), eth1)}
 	}
 	alloc[c36DrainerAt] = types.Account{Nonce: 1, Code: c36DrainerCode(), Balance: new(big.Int)}
@@ -409,6 +412,10 @@ func (r *c36Run) one(rt *rapid.T, variants []worldgen.Variant) {
 			offered++
 			errs := ethservice.TxPool().Add([]*types.Transaction{tx}, true)
 			cls := c36ErrClass(errs[0])
+			if cls == "pool-reject:other" {
+				rt.Logf("pool rejects %s: %v", kind, errs[0])
+				fmt.Printf("C36-POOL-OTHER %s: %v\n", kind, errs[0])
+			}
 			c.Class(kind + ":" + cls)
 			return errs[0] == nil
 		}
@@ -421,10 +428,8 @@ func (r *c36Run) one(rt *rapid.T, variants []worldgen.Variant) {
 			add(fmt.Sprintf("plan-type%d", info.Tx.Type()), info.Tx)
 		}
 		// blob transactions with sidecars
-		version := byte(types.BlobSidecarVersion0)
-		if isOsaka {
-			version = types.BlobSidecarVersion1
-		}
+		// The pool of this tree only admits cell-proof (version 1) sidecars, whatever the fork.
+		version := byte(types.BlobSidecarVersion1)
 		nb := ep.Uniform(rt, "blob-txs", len(c36BlobKeys)+1)
 		for i := 0; i < nb; i++ {
 			k := c36BlobKeys[i]
@@ -455,6 +460,25 @@ func (r *c36Run) one(rt *rapid.T, variants []worldgen.Variant) {
 			tx := types.MustSignNewTx(c36CheapKey.Priv, signer, &types.DynamicFeeTx{ChainID: cfg.ChainID, Nonce: ethservice.TxPool().PoolNonce(c36CheapKey.Addr),
 				GasTipCap: tipv, GasFeeCap: capv, Gas: 21000, To: &c36DrainSink, Value: big.NewInt(1)})
 			add("below-basefee", tx)
+		}
+		// execution-layer requests: a withdrawal request (EIP-7002) and/or a consolidation
+		// request (EIP-7251), so that the payload's request list is not empty
+		if isPrague && rapid.Bool().Draw(rt, "requests") {
+			nonce := ethservice.TxPool().PoolNonce(c36ReqKey.Addr)
+			which := ep.Uniform(rt, "request-kind", 3)
+			mk := func(to common.Address, n int) *types.Transaction {
+				data := bytes.Repeat([]byte{byte(0xa0 + round)}, n)
+				tx := types.MustSignNewTx(c36ReqKey.Priv, signer, &types.DynamicFeeTx{ChainID: cfg.ChainID, Nonce: nonce, GasTipCap: big.NewInt(3),
+					GasFeeCap: new(big.Int).Add(nextBase, big.NewInt(3)), Gas: 500_000, To: &to, Value: big.NewInt(1000), Data: data})
+				nonce++
+				return tx
+			}
+			if which != 1 {
+				add("withdrawal-request", mk(params.WithdrawalQueueAddress, 56))
+			}
+			if which != 0 {
+				add("consolidation-request", mk(params.ConsolidationQueueAddress, 96))
+			}
 		}
 		// drain pair: the victim's own transaction is pooled while it can pay; the attacker's
 		// call (higher tip, ordered first) moves the victim's balance away.
